@@ -234,7 +234,7 @@ theorem step_sim_fd_read {sh : Shim} {w : World} {a : Abs} (b i : Int) (hv : sh.
   · simp only [hz, if_false, hv, Bool.false_eq_true, Int.mul_comm i b]
     by_cases hneg : b * i ≤ 0
     · simp only [hneg, if_true]; exact ⟨by first | rfl | trivial | simp, hR, Frame.refl _⟩
-    · simp only [hneg, if_false, osRead, hval, Bool.not_true, hsp, Bool.false_eq_true]
+    · simp only [hneg, if_false, osRead, hval, Bool.not_true, hsp, Bool.false_eq_true, if_true]
       have hrd : readAt w.file w.off (b * i).toNat = readAt a.content a.pos (b * i).toNat := by
         rw [hoff, readAt_shift, hc]
       rw [hrd]
@@ -263,7 +263,7 @@ theorem step_sim_fd_write {sh : Shim} {w : World} {a : Abs} (b i : Int) (d : Lis
         simp only [this, hl, if_true]
         exact ⟨by simp [cdiv_zero], hR, Frame.refl _⟩
       · have : (dd.length == 0) = false := by simp [hl]
-        simp only [this, hl, if_false, Bool.false_eq_true]
+        simp only [this, hl, if_false, Bool.false_eq_true, if_true]
         refine ⟨by first | rfl | trivial | simp, ?_, Frame.refl _⟩
         rw [Rel_fd hv]
         refine ⟨hsp, by simpa using hwp, by simpa [World.valid] using hval, k, hk, ?_, ?_, ?_, hrw⟩
